@@ -31,6 +31,8 @@ pub enum Op {
     Store { c: usize, h: usize },
     Swap { c: usize, h: usize, out: usize },
     Cas { c: usize, cur: Cur, new: usize, g: usize },
+    /// compare_and_swap with `current` given as a guard *by value* (consumed by the call); C18
+    CasV { c: usize, cur: usize, new: usize, g: usize },
     /// rcu with the closure `|v| v + 1` on the content (a fresh allocation per attempt); the
     /// returned previous value goes to `out`.
     Rcu { c: usize, out: usize },
@@ -76,6 +78,7 @@ impl Op {
                 new,
                 g
             ),
+            CasV { c, cur, new, g } => format!("casv c{} g{} h{} g{}", c, cur, new, g),
             Rcu { c, out } => format!("rcu c{} h{}", c, out),
             RcuPanic { c, at } => format!("rcupanic c{} {}", c, at),
             NewP { h, val } => format!("newp h{} {}", h, val),
@@ -118,6 +121,7 @@ impl Op {
                 new: r(new)?,
                 g: r(g)?,
             },
+            ["casv", c, cur, new, g] => Op::CasV { c: r(c)?, cur: r(cur)?, new: r(new)?, g: r(g)? },
             ["rcu", c, o] => Op::Rcu { c: r(c)?, out: r(o)? },
             ["rcupanic", c, k] => Op::RcuPanic { c: r(c)?, at: k.parse().ok()? },
             ["newp", h, v] => Op::NewP { h: r(h)?, val: v.parse().ok()? },
@@ -187,6 +191,9 @@ pub struct GenCfg {
     pub panics: bool,
     /// a container of a second pointee type (same pool of addresses) written by some threads
     pub second_type: bool,
+    /// directed A-B-A: thread 0 runs rcu/cas, the others keep a handle to the initial value and
+    /// alternate storing a fresh value and storing that same pointer back
+    pub aba: bool,
 }
 
 /// Type-directed generation: registers are tracked abstractly per thread so that most operations
@@ -217,6 +224,32 @@ pub fn generate(rng: &mut Rng, cfg: &GenCfg) -> Program {
         let mut ops = vec![];
         let hbase = 1 + t * HPT;
         let gbase = t * GPT;
+        if cfg.aba {
+            if t == 0 {
+                for k in 0..rng.range(1, 4) {
+                    if rng.chance(1, 3) {
+                        // compare_and_swap against a guard of the current value
+                        ops.push(Op::Load { c: 0, g: gbase + k });
+                        ops.push(Op::New { h: hbase + 3, val: next_val * 100 });
+                        next_val += 1;
+                        ops.push(Op::Cas { c: 0, cur: Cur::G(gbase + k), new: hbase + 3, g: gbase + 8 + k });
+                    } else {
+                        ops.push(Op::Rcu { c: 0, out: hbase + k });
+                    }
+                }
+            } else {
+                ops.push(Op::LoadFull { c: 0, h: hbase });
+                for _ in 0..rng.range(1, 4) {
+                    ops.push(Op::New { h: hbase + 1, val: next_val * 100 });
+                    next_val += 1;
+                    ops.push(Op::Store { c: 0, h: hbase + 1 });
+                    ops.push(Op::CloneH { h: hbase, h2: hbase + 2 });
+                    ops.push(Op::Store { c: 0, h: hbase + 2 });
+                }
+            }
+            threads.push(ops);
+            continue;
+        }
         let mut hfull = vec![false; HPT];
         let mut gfull = vec![false; GPT];
         if let Some(v) = cfg.setgen {
@@ -347,7 +380,14 @@ pub fn generate(rng: &mut Rng, cfg: &GenCfg) -> Program {
                         };
                         if let Some(i) = fresh(&mut ops, &mut hfull, rng) {
                             if cur != Cur::H(hbase + i) {
-                                ops.push(Op::Cas { c, cur, new: hbase + i, g: gbase + gi });
+                                match cur {
+                                    Cur::G(gc) if cfg.panics && rng.chance(1, 2) => {
+                                        // the guard itself is passed (by value) and consumed
+                                        ops.push(Op::CasV { c, cur: gc, new: hbase + i, g: gbase + gi });
+                                        gfull[gc - gbase] = false;
+                                    }
+                                    _ => ops.push(Op::Cas { c, cur, new: hbase + i, g: gbase + gi }),
+                                }
                                 hfull[i] = false;
                                 gfull[gi] = true;
                             }
